@@ -9,6 +9,8 @@ let obj_of = function
   | "optional" -> Optional | "optional_nt" -> OptionalNonTrivial | "variant" -> Variant | "expected" -> Expected
   | "bitset" | "bitset8" | "bitset64" -> Bitset | "inplace_function" -> InplaceFunction
   | "pair" -> Pair | "tuple" -> Tuple | "extents" -> Extents | "duration" -> Duration
+  | s when String.length s > 7 && String.sub s 0 7 = "iv_cap_" -> InplaceVectorCap (z_of_big (Big.of_string (String.sub s 7 (String.length s - 7))))
+  | s when String.length s > 7 && String.sub s 0 7 = "sv_cap_" -> StaticVectorCap (z_of_big (Big.of_string (String.sub s 7 (String.length s - 7))))
   | _ -> raise Not_found
 
 let zs l = join (List.map str_of_z l)
